@@ -86,7 +86,7 @@ func build(fl string) *buildInfo {
 		cmd := exec.Command(tool, args...)
 		cmd.Dir = filepath.Join(root, "harness")
 		env := goEnv()
-		if fl == "asan" || fl == "race" {
+		if fl == "asan" || fl == "race" || fl == "racetiny" {
 			env = append(env, "CGO_ENABLED=1")
 		}
 		cmd.Env = env
@@ -310,7 +310,7 @@ func check(id, tier string) int {
 			cmd.Dir = root
 			env := append(os.Environ(), plan.Flavors[j.part.Flavor].Env...)
 			env = append(env, j.part.Env...)
-			if j.part.Flavor == "race" {
+			if j.part.Flavor == "race" || j.part.Flavor == "racetiny" {
 				env = append(env, "GORACE=halt_on_error=0 log_path="+raceLog)
 			}
 			cmd.Env = env
@@ -366,7 +366,7 @@ func check(id, tier string) int {
 				}
 			}
 			// race reports
-			if j.part.Flavor == "race" {
+			if j.part.Flavor == "race" || j.part.Flavor == "racetiny" {
 				matches, _ := filepath.Glob(raceLog + "*")
 				for _, m := range matches {
 					b, _ := os.ReadFile(m)
